@@ -822,6 +822,222 @@ def stream_decisions(res, rng, model, tier):
     res.extra["decision_cases"] = len(metas)
 
 
+# ===================================================================== stream R: the exclusion verdicts (round 5)
+# `is_excluded_name` = any(p.fullmatch(name)) over the compiled --exclude patterns. Model: RattrModel/Regex.lean (derivative
+# matcher, proved to decide the language of the pattern); oracle: CPython's `re` on the rendered pattern.
+
+R_ALPHA = "abfn_C.1"
+
+
+def r_simple_cc(rng):
+    k = rng.choice(["lit", "lit", "lit", "word", "digit", "range"])
+    if k == "lit":
+        return {"k": "lit", "c": rng.choice(R_ALPHA)}
+    if k == "range":
+        lo, hi = sorted(rng.sample("abcfnz", 2))
+        return {"k": "range", "lo": lo, "hi": hi}
+    return {"k": k}
+
+
+def r_cc(rng):
+    k = rng.choice(["simple"] * 5 + ["any", "any", "union", "neg"])
+    if k == "simple":
+        return r_simple_cc(rng)
+    if k == "any":
+        return {"k": "any"}
+    u = r_simple_cc(rng)
+    for _ in range(rng.randint(0, 2)):
+        u = {"k": "union", "a": u, "b": r_simple_cc(rng)}
+    return u if k == "union" and u["k"] == "union" else ({"k": "neg", "a": u} if k == "neg" else u)
+
+
+def r_re(rng, depth):
+    if depth <= 0 or rng.random() < 0.3:
+        return {"k": "cls", "c": r_cc(rng)} if rng.random() < 0.93 else {"k": "eps"}
+    k = rng.choice(["cat", "cat", "cat", "alt", "star", "plus", "opt"])
+    if k in ("cat", "alt"):
+        return {"k": k, "a": r_re(rng, depth - 1), "b": r_re(rng, depth - 1)}
+    return {"k": k, "a": r_re(rng, depth - 1)}
+
+
+def r_word(text):
+    out = {"k": "eps"}
+    for c in reversed(text):
+        out = {"k": "cat", "a": {"k": "cls", "c": {"k": "lit", "c": c}}, "b": out}
+    return out
+
+
+def r_cc_inner(c):
+    k = c["k"]
+    if k == "lit":
+        return re.escape(c["c"])
+    if k == "word":
+        return r"\w"
+    if k == "digit":
+        return r"\d"
+    if k == "range":
+        return c["lo"] + "-" + c["hi"]
+    if k == "union":
+        return r_cc_inner(c["a"]) + r_cc_inner(c["b"])
+    raise ValueError(k)
+
+
+def r_cc_render(c):
+    k = c["k"]
+    if k == "any":
+        return "."
+    if k in ("lit", "word", "digit"):
+        return r_cc_inner(c)
+    if k == "neg":
+        return "[^" + r_cc_inner(c["a"]) + "]"
+    return "[" + r_cc_inner(c) + "]"
+
+
+def r_render(r):
+    """The `re` source of a pattern AST (every compound operand in a non-capturing group)."""
+    k = r["k"]
+    if k == "eps":
+        return "(?:)"
+    if k == "cls":
+        return r_cc_render(r["c"])
+    if k == "cat":
+        return r_grp(r["a"], "cat") + r_grp(r["b"], "cat")
+    if k == "alt":
+        return r_render(r["a"]) + "|" + r_render(r["b"])
+    return r_grp(r["a"], "rep") + {"star": "*", "plus": "+", "opt": "?"}[k]
+
+
+def r_grp(r, where):
+    if r["k"] == "cls" or (where == "cat" and r["k"] in ("cat", "eps")):
+        return r_render(r)
+    return "(?:" + r_render(r) + ")"
+
+
+def r_cc_sample(c, rng):
+    cands = [ch for ch in R_ALPHA + "cz9X" if r_cc_test(c, ch)]
+    return rng.choice(cands) if cands else None
+
+
+def r_cc_test(c, ch):
+    k = c["k"]
+    if k == "lit":
+        return ch == c["c"]
+    if k == "any":
+        return ch != "\n"
+    if k == "word":
+        return ch.isascii() and (ch.isalnum() or ch == "_")
+    if k == "digit":
+        return ch.isascii() and ch.isdigit()
+    if k == "range":
+        return c["lo"] <= ch <= c["hi"]
+    if k == "union":
+        return r_cc_test(c["a"], ch) or r_cc_test(c["b"], ch)
+    return not r_cc_test(c["a"], ch)
+
+
+def r_sample(r, rng):
+    """A string of the pattern's language (None when a class is empty on the alphabet)."""
+    k = r["k"]
+    if k == "eps":
+        return ""
+    if k == "cls":
+        return r_cc_sample(r["c"], rng)
+    if k == "cat":
+        a, b = r_sample(r["a"], rng), r_sample(r["b"], rng)
+        return None if a is None or b is None else a + b
+    if k == "alt":
+        first, second = (r["a"], r["b"]) if rng.random() < 0.5 else (r["b"], r["a"])
+        x = r_sample(first, rng)
+        return x if x is not None else r_sample(second, rng)
+    n = {"star": rng.choice([0, 1, 2]), "plus": rng.choice([1, 2]), "opt": rng.choice([0, 1])}[k]
+    parts = [r_sample(r["a"], rng) for _ in range(n)]
+    return None if any(x is None for x in parts) else "".join(parts)
+
+
+def r_excluded_impl(patterns, name):
+    from rattr.analyser.util import is_excluded_name
+    impl.reset_config(target=vl.TARGET, _excluded_names=list(patterns))
+    return impl.outcome_of(is_excluded_name, name)
+
+
+def stream_patterns(res, rng, model, tier):
+    n_sets = 160 if tier == "quick" else 2500
+    cases = []
+    fixed = [([r_word("get")], ["get", "get_all", "xget", "ge", "Get", ""]),
+             ([r_word("all"), r_word("fn")], ["get_all", "all", "fn", "fn1", "afn"]),
+             ([{"k": "cat", "a": r_word("_"), "b": {"k": "star", "a": {"k": "cls", "c": {"k": "any"}}}}], ["_a", "a_", "_", "__init__", "a._b"]),
+             ([r_word("C.f")], ["C.f", "CXf", "C.f1", "C"]),
+             ([{"k": "cat", "a": r_word("C"), "b": {"k": "cat", "a": {"k": "cls", "c": {"k": "any"}}, "b": r_word("f")}}], ["C.f", "CXf", "Cf", "C.ff"]),
+             ([], ["fn", ""])]
+    for asts, names in fixed:
+        cases.append((asts, names))
+    for _ in range(n_sets):
+        asts = [r_re(rng, rng.choice([1, 2, 2, 3])) for _ in range(rng.choice([1, 1, 1, 2, 3]))]
+        names = set()
+        for a in asts:
+            for _ in range(3):
+                x = r_sample(a, rng)
+                if x is not None:
+                    names.add(x)
+                    names.add(x + rng.choice(R_ALPHA))                 # a full match followed by one more character
+                    names.add(rng.choice(R_ALPHA) + x)                 # … preceded by one
+                    if x:
+                        names.add(x[:-1])
+                        i = rng.randrange(len(x))
+                        names.add(x[:i] + rng.choice(R_ALPHA) + x[i + 1:])
+        for _ in range(3):
+            names.add("".join(rng.choice(R_ALPHA) for _ in range(rng.randint(0, 5))))
+        cases.append((asts, sorted(names)))
+    outs = model.batch([("re_match", {"pats": asts, "names": names}) for asts, names in cases])
+    n_file = 0
+    for (asts, names), mo in zip(cases, outs):
+        pats = [r_render(a) for a in asts]
+        if "__error__" in mo:
+            res.disagreements.append({"case": {"patterns": pats}, "model": mo})
+            continue
+        compiled = [re.compile(p) for p in pats]
+        for name, row in zip(names, mo["rows"]):
+            res.evaluations += 1
+            py_full = [c.fullmatch(name) is not None for c in compiled]
+            py_prefix = [c.match(name) is not None for c in compiled]
+            py_search = [c.search(name) is not None for c in compiled]
+            case = {"exclude": pats, "name": name}
+            if row["full"] != py_full or row["prefix"] != py_prefix or row["search"] != py_search:
+                res.internal_errors.append({"what": "Regex model disagrees with CPython re on the rendered pattern", "case": case,
+                                            "model": row, "python": {"full": py_full, "prefix": py_prefix, "search": py_search}})
+                continue
+            want = any(py_full)
+            kind = ("full-match" if want else "prefix-match-only" if any(py_prefix) else "infix-match-only" if any(py_search) else "no-match")
+            res.count("R:name:" + kind)
+            out = r_excluded_impl(pats, name)
+            if out[0] != "ok":
+                res.violations.append({"signature": f"exclusion-verdict:{out[0]}:{out[1] if len(out) > 1 else ''}", "case": case})
+                continue
+            got = bool(out[1])
+            if got != row["excluded"]:
+                res.disagreements.append({"case": case, "impl": {"is_excluded_name": got}, "model": row})
+            if got != want:
+                res.violations.append({"signature": "exclusion-verdict:" + ("excluded-on-a-" + kind if got else "full-match-not-excluded"),
+                                       "case": case, "impl": {"is_excluded_name": got}})
+            if want or any(py_prefix) or any(py_search):
+                res.nontrivial.add(common.digest(["R", pats, name]))
+            # the same verdict where it is consumed: a module-level def of that name in a file
+            if name.isidentifier() and name not in ("True", "False", "None") and (kind != "no-match" or rng.random() < 0.1) \
+                    and n_file < (250 if tier == "quick" else 3000):
+                n_file += 1
+                source = f"def {name}(a):\n    return a.body_fn\n"
+                im = run_decision_impl(source, name, pats)
+                res.count("R:file:" + im["outcome"] + ":" + im.get("decision", im.get("detail", "")))
+                if im["outcome"] != "ok" or im["decision"] != row["decision"]:
+                    res.disagreements.append({"case": {"source": source, "exclude": pats, "key": name}, "impl": im, "model": row["decision"]})
+                if im["outcome"] == "ok" and (im["decision"] == "skip") != want:
+                    res.violations.append({"signature": "excluded-callable-in-results:function:by-pattern" if want
+                                           else "callable-excluded-without-a-full-match:function:" + kind,
+                                           "case": {"source": source, "exclude": pats, "key": name}, "impl": im})
+    res.extra["pattern_sets"] = len(cases)
+    res.extra["pattern_file_cases"] = n_file
+
+
 # ===================================================================== stream B: end to end through the CLI
 
 HDR = "from rattr.analyser.annotations import rattr_ignore, rattr_results\n"
@@ -1223,7 +1439,9 @@ def run(tier, seed, build):
                 "A: a fixed full well-formed rattr_results argument set + seeded random ones, each with EVERY single-point mutation "
                 "(every tree position x 35 replacement literals of every kind, element drop / append / duplicate, key removed / renamed / "
                 "**-unpacked / made positional, extra key, extra positional, **d, key=None); D: {def, async def, class, static method, "
-                "lambda} x decorator lists of length <= 2 over 17 decorator forms x exclusion-pattern sets; B: generated two-file projects "
+                "lambda} x decorator lists of length <= 2 over 17 decorator forms x exclusion-pattern sets; R: generated exclusion patterns of the regular "
+                "fragment (as ASTs, rendered to `re` source) x names drawn from each pattern's language, one-character extensions / truncations / "
+                "substitutions of those, and random names: is_excluded_name and the file analyser on a def of that name vs the Lean matcher vs CPython's re; B: generated two-file projects "
                 "through the real CLI, subsets of 10 markable callables per marking kind + mixed assignments; every annotated target callable declares "
                 "calls in 10 forms (local function, `lib.f`, `lb.f` through an alias, from-import by keyword, local / from-imported / module-member "
                 "static method and class constructor) into the followed import, each callee with its own distinctive attribute that must show up, "
@@ -1239,6 +1457,7 @@ def run(tier, seed, build):
     stream_names(res, rng, model, tier)
     stream_annotations(res, rng, model, tier)
     stream_decisions(res, rng, model, tier)
+    stream_patterns(res, random.Random(seed + 1105), model, tier)
     stream_cli(res, rng, tier)
     from props import c11subst
     c11subst.unit_stage(res, random.Random(seed + 1101), 400 if tier == "quick" else 4000, model)
@@ -1255,7 +1474,9 @@ def run(tier, seed, build):
         "[interp] a declared constructor call names the instance explicitly as its first positional name ((\"Cls\", ([inst, arg], {}))): no "
         "instance is synthesised for declared calls",
         "identifier fragment: ASCII; `\\w` of re_rattr_name matches non-ASCII word characters, not modelled",
-        "re.fullmatch on user patterns is a parameter of the model (verdicts computed by CPython's re in the harness)",
+        "re.fullmatch on user patterns: modelled on the regular fragment (RattrModel/Regex.lean: classes, `.`, `\\w`, `\\d`, ranges, negated classes, "
+        "concatenation, `|`, `*`, `+`, `?`; ASCII names) and compared with CPython's re on every generated (pattern, name) (stream R); outside the "
+        "fragment (anchors, back-references, look-around, flags, non-ASCII) the verdicts stay a parameter computed by CPython's re (stream D)",
         "a crash on a decorator get_attrname cannot name (`@d[0]`) is C07-K2's finding and is not judged by C11",
     ]
     return res
